@@ -685,6 +685,43 @@ impl TypeVar {
         });
     }
 
+    /// the type variables directly inside the potential types of this one
+    fn children(&self) -> Vec<TypeVar> {
+        self.0.with_data(|d| {
+            let mut children = vec![];
+            for ty in d.types.values() {
+                match ty {
+                    PotentialType::Function(_, args, out) => {
+                        children.extend(args.iter().cloned());
+                        children.push(out.clone());
+                    }
+                    PotentialType::Tuple(_, elems) => children.extend(elems.iter().cloned()),
+                    PotentialType::Nominal(_, _, params) => {
+                        children.extend(params.iter().cloned())
+                    }
+                    _ => {}
+                }
+            }
+            children
+        })
+    }
+
+    /// occurs check: is this type variable strictly inside the structure of `other`?
+    /// (unifying the two would then build a type that contains itself)
+    fn occurs_in(&self, other: &TypeVar) -> bool {
+        let mut visited = HashSet::default();
+        let mut stack = other.children();
+        while let Some(tyvar) = stack.pop() {
+            if tyvar.0.equiv(&self.0) {
+                return true;
+            }
+            if visited.insert(tyvar.0.with_data(|d| d.id)) {
+                stack.extend(tyvar.children());
+            }
+        }
+        false
+    }
+
     fn single(&self) -> Option<PotentialType> {
         let types = self.0.clone_data().types;
         if types.len() == 1 {
@@ -1463,6 +1500,41 @@ pub(crate) fn constrain_because(
     tyvar2: &TypeVar,
     constraint_reason: ConstraintReason,
 ) {
+    if tyvar1.occurs_in(tyvar2) || tyvar2.occurs_in(tyvar1) {
+        // e.g. `f(f)`, or a function that returns itself: no finite type satisfies the constraint
+        let outer = if tyvar1.occurs_in(tyvar2) {
+            tyvar2
+        } else {
+            tyvar1
+        };
+        let reason = outer.0.with_data(|d| {
+            let ty = d.types.values().find(|ty| ty.reasons().len() > 0)?;
+            Some(ty.reasons().first())
+        });
+        let node = match reason {
+            Some(
+                Reason::Node(node)
+                | Reason::Annotation(node)
+                | Reason::Literal(node)
+                | Reason::PrefixOp(node)
+                | Reason::BinopLeft(node)
+                | Reason::BinopRight(node)
+                | Reason::BinopOut(node)
+                | Reason::VariantNoData(node)
+                | Reason::IfWithoutElse(node),
+            ) => Some(node),
+            Some(Reason::Intrinsic(_)) | None => None,
+        };
+        let msg = "Infinite type: the type of this expression would have to contain itself";
+        match node {
+            Some(node) => ctx.errors.push(Error::GenericWithNode {
+                msg: msg.to_string(),
+                node,
+            }),
+            None => ctx.errors.push(Error::Generic(msg.to_string())),
+        }
+        return;
+    }
     match (tyvar1.is_locked(), tyvar2.is_locked()) {
         // Since both TypeVars are already locked, an error is logged if their data do not match
         (true, true) => {
